@@ -104,10 +104,11 @@ def triple_s(draw, tier, focus=None):
         elif k == 2:
             # keep the grid, change door statuses only (open <-> closed both ways)
             n['grid'] = [list(r) for r in s['grid']]
+            n['agent'][0], n['agent'][1] = s['agent'][0], s['agent'][1]
             for p in M.find(n, lambda o: M.obj_type(o) == 'Door'):
+                if p == M.apos(n):
+                    continue  # the agent never stands on a blocking cell (stated assumption of the distance rewards)
                 n['grid'][p[0]][p[1]] = f'D:{draw(st.sampled_from(objs.STATUSES))}:{M.color_of(M.cell(n, p))}'
-            if M.blocks_movement(M.cell(n, M.apos(n))):
-                n['agent'][0], n['agent'][1] = s['agent'][0], s['agent'][1]
     return {'s': s, 'a': a, 'mode': mode, 'n': n, 'chain': chain, 'seed': draw(st.integers(0, 2**31)), 'space': space}
 
 
